@@ -1,5 +1,4 @@
 package main
 
 func init() {
-	propRules["C16"] = func(c *Ctx) { ribFamily(c, famSel{hookAdd: true, hookDel: true, hookFlush: true}) }
 }
